@@ -1,0 +1,40 @@
+// Verification hooks (compiled only with `--cfg pest_parser_pest_verif`).
+//
+// Read-only observation points used by an external conformance harness; nothing here is
+// part of pest's API or changes its behaviour.
+
+//! Observation hooks for model-based conformance checking.
+
+use alloc::string::String;
+use alloc::vec::Vec;
+use core::cell::RefCell;
+
+/// What `pest::state` saw when the top-level closure returned.
+#[derive(Clone, Debug)]
+pub struct FinalView {
+    /// Whether the closure returned `Ok`.
+    pub ok: bool,
+    /// Final byte position.
+    pub pos: usize,
+    /// Final contents of the stack, bottom first.
+    pub stack: Vec<String>,
+    /// Number of counted calls (only tracked while a call limit is set).
+    pub calls: usize,
+    /// Whether the call limit had been reached.
+    pub limit_reached: bool,
+    /// Position of the furthest tracked attempt.
+    pub attempt_pos: usize,
+}
+
+std::thread_local! {
+    static LAST: RefCell<Option<FinalView>> = const { RefCell::new(None) };
+}
+
+pub(crate) fn record(view: FinalView) {
+    LAST.with(|l| *l.borrow_mut() = Some(view));
+}
+
+/// Takes the view recorded by the most recent `pest::state` call on this thread.
+pub fn take_last() -> Option<FinalView> {
+    LAST.with(|l| l.borrow_mut().take())
+}
